@@ -1,7 +1,7 @@
 (** C12 — when can the GraphQL block-string value computation ([Values.v]) crash?
-    [dedent] crashes only when some WHITE-SPACE character of the value is wider than one byte;
-    on pure ASCII documents neither [read_block] (whose [peek_next] slices the source at a
-    character count) nor [dedent] crashes, and [read_block] never runs out of fuel. *)
+    [dedent_pre] crashes only when some WHITE-SPACE character of the value is wider than one byte;
+    on pure ASCII documents neither [read_block_pre] (whose [peek_next] slices the source at a
+    character count) nor [dedent_pre] crashes, and [read_block_pre] never runs out of fuel. *)
 From GV Require Import Lex.Cursor Lex.Lexers Lex.Values Lex.ProofsCursor.
 From Coq Require Import Lia List Bool Arith.
 Import ListNotations.
@@ -100,7 +100,7 @@ Proof.
     + intros a E. subst acc. unfold ci_step in HA. destruct (blank l); specialize (HA _ eq_refl); lia.
 Qed.
 
-(** ** [dedent] crashes only on wide white space *)
+(** ** [dedent_pre] crashes only on wide white space *)
 Lemma blank_all_ws : forall l, blank l = true -> forall c, In c l -> is_wsf c = true.
 Proof. intros l H. unfold blank in H. rewrite forallb_forall in H. exact H. Qed.
 
@@ -123,9 +123,9 @@ Qed.
 Lemma dedent_rest_total : forall ci ls,
   (forall l, In l ls -> ws_narrow l) ->
   (forall n, ci = Some n -> 0 <= n /\ forall l, In l ls -> blank l = false -> n <= indent_of l) ->
-  exists y, dedent_rest ci ls = Done y.
+  exists y, dedent_rest_pre ci ls = Done y.
 Proof.
-  intros ci ls. induction ls as [|l r IH]; intros Hws Hci; cbn [dedent_rest]; [eexists; reflexivity|].
+  intros ci ls. induction ls as [|l r IH]; intros Hws Hci; cbn [dedent_rest_pre]; [eexists; reflexivity|].
   assert (Hx : exists x, match ci with
                          | Some n => if n <? blen l then match str_from l n with Ok t => Done t | Panic => Crash end else Done []
                          | None => Done l end = Done x).
@@ -142,9 +142,9 @@ Proof.
   - cbn [obind]. eexists. reflexivity.
 Qed.
 
-Theorem dedent_total_l : forall v, ws_narrow v -> exists r, dedent v = Done r.
+Theorem dedent_total_l : forall v, ws_narrow v -> exists r, dedent_pre v = Done r.
 Proof.
-  intros v Hws. unfold dedent. destruct (split_lines v []) as [|first rest] eqn:E; [eexists; reflexivity|].
+  intros v Hws. unfold dedent_pre. destruct (split_lines v []) as [|first rest] eqn:E; [eexists; reflexivity|].
   destruct (dedent_rest_total (common_indent rest) rest) as [y ->].
   - intros l Hl c Hc Hw. apply Hws; [|exact Hw].
     destruct (split_lines_In v [] l c) as [H|[]]; [rewrite E; right; exact Hl|exact Hc|exact H].
@@ -153,7 +153,7 @@ Proof.
   - cbn [obind]. eexists. reflexivity.
 Qed.
 
-(** ** [read_block] on ASCII documents *)
+(** ** [read_block_pre] on ASCII documents *)
 Lemma str_from_ascii_at : forall pre suf, Forall w1 (pre ++ suf) ->
   str_from (pre ++ suf) (Z.of_nat (length pre)) = Ok suf.
 Proof.
@@ -163,12 +163,12 @@ Qed.
 
 Lemma read_block_total : forall fuel s pre i acc,
   s = pre ++ i -> Forall w1 s -> (length i < fuel)%nat ->
-  exists v, read_block fuel s (Z.of_nat (length pre)) i acc = Done v /\
+  exists v, read_block_pre fuel s (Z.of_nat (length pre)) i acc = Done v /\
             forall c, In c v -> In c s \/ c = quote \/ In c acc.
 Proof.
   induction fuel as [|f IH]; intros s pre i acc E Hs Hf; [lia|].
   assert (Hstep : forall c r acc', i = c :: r ->
-            exists v, read_block f s (Z.of_nat (length pre) + 1) r acc' = Done v /\
+            exists v, read_block_pre f s (Z.of_nat (length pre) + 1) r acc' = Done v /\
                       forall x, In x v -> In x s \/ x = quote \/ In x acc').
   { intros c r acc' Ei. subst i.
     replace (Z.of_nat (length pre) + 1) with (Z.of_nat (length (pre ++ [c]))) by (rewrite app_length; cbn [length]; lia).
@@ -176,13 +176,13 @@ Proof.
   assert (Hin : forall c r, i = c :: r -> In c s).
   { intros c r Ei. rewrite E, Ei. apply in_or_app. right. left. reflexivity. }
   assert (Hpush : forall c r, i = c :: r ->
-            exists v, read_block f s (Z.of_nat (length pre) + 1) r (c :: acc) = Done v /\
+            exists v, read_block_pre f s (Z.of_nat (length pre) + 1) r (c :: acc) = Done v /\
                       forall x, In x v -> In x s \/ x = quote \/ In x acc).
   { intros c r Ei. destruct (Hstep c r (c :: acc) Ei) as (v & Hv & Hsub). exists v. split; [exact Hv|].
     intros x Hx. destruct (Hsub x Hx) as [H|[H|[<-|H]]]; auto. left. eapply Hin. exact Ei. }
   assert (Hsf : str_from s (Z.of_nat (length pre)) = Ok i).
   { rewrite E. apply str_from_ascii_at. rewrite <- E. exact Hs. }
-  cbn [read_block]. destruct i as [|c r].
+  cbn [read_block_pre]. destruct i as [|c r].
   - exists (rev acc). split; [reflexivity|]. intros x Hx. right. right. apply in_rev. exact Hx.
   - destruct (cp c =? 34) eqn:Eq.
     + unfold gq_peek_next, gq_copy3. rewrite Hsf. cbn [obind].
@@ -216,12 +216,12 @@ Qed.
 
 (** ** the values of all block strings of a token list *)
 Theorem block_values_ascii_l : forall s ts, Forall w1 s ->
-  Forall (fun t => 0 <= snd (fst t)) ts -> exists vs, block_values s ts = Done vs.
+  Forall (fun t => 0 <= snd (fst t)) ts -> exists vs, block_values_pre s ts = Done vs.
 Proof.
-  intros s ts Hs Hts. induction Hts as [|t r Ht _ IH]; cbn [block_values]; [eexists; reflexivity|].
+  intros s ts Hs Hts. induction Hts as [|t r Ht _ IH]; cbn [block_values_pre]; [eexists; reflexivity|].
   destruct IH as [vs IH]. destruct (fst (fst t) =? K_LSTR); [|exists vs; exact IH].
   set (p := snd (fst t) + 3). set (i := skipn (Z.to_nat p) s).
-  assert (Hv : exists v, read_block (S (length i)) s p i [] = Done v /\ forall c, In c v -> In c s \/ c = quote \/ In c []).
+  assert (Hv : exists v, read_block_pre (S (length i)) s p i [] = Done v /\ forall c, In c v -> In c s \/ c = quote \/ In c []).
   { destruct (Nat.le_gt_cases (Z.to_nat p) (length s)) as [Hle|Hgt].
     - replace p with (Z.of_nat (length (firstn (Z.to_nat p) s))) by (rewrite firstn_length; unfold p in *; lia).
       apply read_block_total; [symmetry; apply firstn_skipn|exact Hs|lia].
@@ -305,12 +305,43 @@ Qed.
 
 (** on ASCII documents the GraphQL lexer, the computation of its block-string values included,
     neither crashes nor runs out of fuel *)
-Theorem graphql_full_ascii_l : forall s, Forall w1 s -> exists r, lex_graphql_full s = Done r.
+Theorem graphql_full_ascii_l : forall s, Forall w1 s -> exists r, lex_graphql_full_pre s = Done r.
 Proof.
-  intros s Hs. unfold lex_graphql_full.
-  destruct (iter_lexer_ascii_safe graphql_next eq_refl s Hs) as [ts Hts].
-  unfold lex_graphql. rewrite Hts. cbn [obind].
+  intros s Hs. unfold lex_graphql_full_pre.
+  destruct (iter_lexer_ascii_safe graphql_next_pre eq_refl s Hs) as [ts Hts].
+  unfold lex_graphql_pre. rewrite Hts. cbn [obind].
   destruct (block_values_ascii_l s ts Hs) as [vs ->].
   - unfold lex in Hts. eapply iter_tokenize_starts; [|exact Hts]. lia.
   - cbn [obind]. eexists. reflexivity.
+Qed.
+
+(** ** the code as it is now: no slicing of the source, no unchecked slicing of a line *)
+Lemma read_block_done : forall fuel i acc, (length i < fuel)%nat -> exists v, read_block fuel i acc = Done v.
+Proof.
+  induction fuel as [|f IH]; intros i acc Hf; [lia|]. cbn [read_block].
+  destruct i as [|c r]; [eexists; reflexivity|]. cbn [length] in Hf.
+  assert (Hr : forall acc', exists v, read_block f r acc' = Done v) by (intro; apply IH; lia).
+  destruct (cp c =? 34).
+  - destruct (is_q (nth_error (c :: r) 1)); [|apply Hr]. destruct (q3 (c :: r)); [eexists; reflexivity|apply Hr].
+  - destruct (cp c =? 92); [|apply Hr]. destruct r as [|q r']; [apply Hr|].
+    destruct ((cp q =? 34) && is_q (nth_error (q :: r') 1)); [|apply Hr].
+    apply IH. pose proof (skipn_length 3 (q :: r')). cbn [length] in *. lia.
+Qed.
+
+Lemma block_values_total_l : forall s ts, exists vs, block_values s ts = Done vs.
+Proof.
+  intros s ts. induction ts as [|t r [vs IH]]; cbn [block_values]; [eexists; reflexivity|].
+  destruct (fst (fst t) =? K_LSTR); [|exists vs; exact IH].
+  destruct (read_block_done (S (length (skipn (Z.to_nat (snd (fst t) + 3)) s))) (skipn (Z.to_nat (snd (fst t) + 3)) s) []) as [v ->]; [lia|].
+  cbn [obind]. rewrite IH. cbn [obind]. eexists. reflexivity.
+Qed.
+
+(** on EVERY document the GraphQL lexer, the computation of its block-string values included, neither
+    crashes nor runs out of fuel *)
+Theorem graphql_full_total_l : forall s, exists r, lex_graphql_full s = Done r.
+Proof.
+  intro s. unfold lex_graphql_full.
+  destruct (iter_lexer_safe graphql_next eq_refl s) as [ts Hts].
+  unfold lex_graphql. rewrite Hts. cbn [obind].
+  destruct (block_values_total_l s ts) as [vs ->]. cbn [obind]. eexists. reflexivity.
 Qed.
